@@ -210,6 +210,10 @@ def main():
     if not complete:
         log('NO JOB COMPLETED (no verdict)')
         rc = rc or 2
+    nerr = sum(s.by_status.get('error', 0) for s in states)
+    if nerr:
+        log(f'ENGINE-ERROR: {nerr} paths ended in a harness/engine exception (broken check, no verdict)')
+        rc = rc or 2
     return rc
 
 
